@@ -131,6 +131,11 @@ func (f *Frame) execInstr(in ssa.Instruction, reach string, st *State) string {
 		if mm, ok := x.(*ssa.MakeMap); ok {
 			f.mapInit(st, ref, mm.Type())
 		}
+		if mc, ok := x.(*ssa.MakeChan); ok && f.isMutexChan(mc) {
+			// an empty capacity-1 channel is a locked mutex: filling it unlocks
+			h := f.lockHeap()
+			e.setHeap(st, h, sx("store", e.heapTerm(st, h), ref, "true"))
+		}
 	case *ssa.MakeClosure:
 		fn := x.Fn.(*ssa.Function)
 		var bs []Val
@@ -220,6 +225,9 @@ func (f *Frame) newRef(st *State, tag string) string {
 	na := e.fresh("alloc", "Int")
 	e.assume("true", eq(na, sx("+", st.Alloc, "1")))
 	st.Alloc = na
+	if h, ok := e.heaps["G!released"]; ok {
+		e.assume("true", not(sx("select", e.heapTerm(st, h), r))) // a fresh object has not been released
+	}
 	return r
 }
 
@@ -270,6 +278,9 @@ func (f *Frame) execIndexAddr(x *ssa.IndexAddr, reach string, st *State) {
 	switch u := x.X.Type().Underlying().(type) {
 	case *types.Slice:
 		f.safety("bounds", reach, and(e.ile(e.idxLit(0), idx), e.ilt(idx, base.C[2])))
+		if f.liveChecks() {
+			f.liveObl(reach, st, base.C[0], "index")
+		}
 		abs := e.iadd(base.C[1], idx)
 		r := Val{T: x.Type(), C: []string{"0"}}
 		if _, ok := u.Elem().Underlying().(*types.Struct); ok {
